@@ -368,6 +368,29 @@ def r2(chk, prog):
                 not f.cfg.must_pass_through(lambda n: n in ins)
             chk.check(ok, 'R2', f.name, 'addValue() inserts the value with the container\'s own primitive [%s]' % tag,
                       f.loc())
+        # the observers of an adapter (membership, intersection with another destination, rendering) leave every
+        # destination as it is: the content is determined by the values given, a check must not re-order it
+        MUT_MEMBERS = ('push_back', 'push_front', 'insert', 'erase', 'clear', 'sort', 'resize', 'pop', 'pop_back',
+                       'pop_front', 'push', 'emplace', 'emplace_back', 'emplace_front', 'assign', 'swap', 'reverse',
+                       'unique', 'remove', 'remove_if', 'merge', 'splice', 'operator=', 'insert_after', 'erase_after')
+        MUT_ALGOS = ('sort', 'stable_sort', 'partial_sort', 'nth_element', 'reverse', 'unique', 'remove', 'remove_if',
+                     'rotate', 'partition', 'stable_partition', 'shuffle', 'random_shuffle', 'next_permutation',
+                     'prev_permutation', 'fill', 'fill_n', 'replace', 'replace_if', 'swap', 'swap_ranges', 'iter_swap',
+                     'inplace_merge', 'make_heap', 'sort_heap', 'push_heap', 'pop_heap', 'transform', 'generate', 'iota')
+        for obs in ('contains', 'hasIntersection', 'toString'):
+            if obs not in meths or always_throws(meths[obs]):
+                continue
+            g = meths[obs]
+            bad = []
+            for c in g.calls():
+                nm = (c.get('callee') or '').split('::')[-1].split('<')[0]
+                if c.get('k') == 'CXXMemberCallExpr' and nm in MUT_MEMBERS and mentions_field(object_of(c), 'mDestCont'):
+                    bad.append(nm)
+                elif c.get('k') == 'CallExpr' and nm in MUT_ALGOS and (c.get('callee') or '').startswith('std::') and \
+                        any(mentions_field(a, 'mDestCont') for a in call_args(c)):
+                    bad.append('std::' + nm)
+            chk.check(not bad, 'R2', g.name, '%s() does not modify a destination [%s]' % (obs, tag), g.loc(),
+                      'it calls %s on a destination container' % ', '.join(sorted(set(bad))))
         if 'clear' in meths:
             f = meths['clear']
             cl = [c for c in f.calls() if field_name(object_of(c)) == 'mDestCont' and c.get('callee', '').endswith('::clear')]
@@ -476,8 +499,41 @@ def r3_unique_prefix(chk, prog, rule='R3'):
     return n
 
 
+def r3_tuple_element_index(chk, prog, rule='R3'):
+    """the element of a tuple destination that receives a value is selected by the number of values stored SO FAR
+    over all uses of the argument (a member that is incremented once per value) - never by the position of the value
+    inside the current value list: with '-t a -t 5' the second value belongs to element 1, and must be converted to
+    the type of element 1"""
+    fs = [f for f in prog.functions if (f.cls or '').startswith('celma::prog_args::detail::TypedArg<std::tuple<')
+          and f.short == 'assign' and f.body is not None]
+    chk.require(fs, 'TypedArg< std::tuple<...>>::assign not instantiated')
+    n = 0
+    for f in fs:
+        calls = [c for c in f.calls() if (c.get('callee') or '').startswith('celma::common::tuple_at_index')]
+        chk.require(calls, '%s: tuple_at_index() not called' % f.name)
+        incremented = {field_name(children(x)[0]) for x in f.walk() if x.get('k') == 'UnaryOperator' and
+                       x.get('op') == '++' and field_name(children(x)[0])}
+        for c in calls:
+            idx = strip_all_casts(call_args(c)[0])
+            fld = field_name(idx)
+            n += 1
+            ok = fld is not None and fld in incremented and idx.get('k') == 'MemberExpr'
+            # ... incremented once in every iteration that stores a value
+            if ok:
+                loops = enclosing_loops(f, c)
+                incs = [x for x in f.walk() if x.get('k') == 'UnaryOperator' and x.get('op') == '++' and
+                        field_name(children(x)[0]) == fld]
+                ok = bool(loops) and len(incs) == 1 and loops[-1] in enclosing_loops(f, incs[0])
+            chk.check(ok, rule, f.name, 'the tuple element is selected by the number of values stored so far (member '
+                      'counter, carried over between uses)', f.loc(c), 'the index is %s' % (
+                          'member %s, which is not advanced once per value' % fld if fld else
+                          'not a member counter (position inside the current value list?)'))
+    return n
+
+
 def r3(chk, prog):
     r3_tuple_capacity(chk, prog)
+    r3_tuple_element_index(chk, prog)
     eng = c04.make_engine(prog)
     c04.r5_fixed_size(chk, prog, eng, rule='R3')
     r3_unique_prefix(chk, prog, 'R3')
